@@ -43,6 +43,7 @@ type report struct {
 	Selects      int            `json:"reflect_select_calls_rewritten"`
 	ChanYields   int            `json:"channel_method_yields_inserted"`
 	NativeSel    int            `json:"native_select_statements_rewritten"`
+	StoredPolls  int            `json:"polls_of_stored_channels_given_a_yield"`
 	Unrewritten  []string       `json:"unrewritten_sync_sites"`
 	Files        map[string]int `json:"edits_per_file"`
 	AccessSites  []string       `json:"access_sites"`
@@ -696,9 +697,38 @@ func (rw *rewriter) nativeSelects(f *ast.File) {
 			return true
 		}
 		comm := 0
+		var only ast.Stmt
 		for _, c := range sel.Body.List {
-			if c.(*ast.CommClause).Comm != nil {
+			if cm := c.(*ast.CommClause).Comm; cm != nil {
 				comm++
+				only = cm
+			}
+		}
+		if comm == 1 && !labeled[sel] {
+			// R7: a poll of (or a wait on) a channel that was stored earlier instead of being fetched by a call here
+			var x ast.Expr
+			switch st := only.(type) {
+			case *ast.ExprStmt:
+				x = st.X
+			case *ast.AssignStmt:
+				if len(st.Rhs) == 1 {
+					x = st.Rhs[0]
+				}
+			}
+			if u, ok := x.(*ast.UnaryExpr); ok && u.Op == token.ARROW {
+				stored := true
+				ast.Inspect(u.X, func(n ast.Node) bool {
+					if _, isCall := n.(*ast.CallExpr); isCall {
+						stored = false
+					}
+					return stored
+				})
+				if stored {
+					o := rw.off(sel.Pos())
+					rw.edits = append(rw.edits, edit{o, o, "simrt.PollChan(" + rw.text(u.X) + "); "})
+					rw.rep.StoredPolls++
+					rw.usesSim = true
+				}
 			}
 		}
 		if comm < 2 {
